@@ -215,6 +215,16 @@ fn constructors(n: usize) -> Vec<(String, Result<Matrix, String>, Vec<f64>)> {
             vec![1.0, 0.0, 7.0, 0.0, 2.0, 0.0, 0.0, 0.0, 3.0],
         ));
     }
+    if n == 3 {
+        // the size is fixed by an off-diagonal alone (no full-length main diagonal given)
+        v.push(("banded_matrix!(-1 only)".into(), guarded(|| banded_matrix!(-1 => [5.0, 6.0])), vec![0.0, 5.0, 0.0, 0.0, 0.0, 6.0, 0.0, 0.0, 0.0]));
+        v.push(("banded_matrix!(1 only)".into(), guarded(|| banded_matrix!(1 => [5.0, 6.0])), vec![0.0, 0.0, 0.0, 5.0, 0.0, 0.0, 0.0, 6.0, 0.0]));
+        v.push(("banded_matrix!(-2 fixes n, short main)".into(), guarded(|| banded_matrix!(0 => [1.0], -2 => [7.0])), vec![1.0, 0.0, 7.0, 0.0, 0.0, 0.0, 0.0, 0.0, 0.0]));
+        v.push(("banded_matrix!(2 fixes n, short main)".into(), guarded(|| banded_matrix!(0 => [1.0, 2.0], 2 => [7.0])), vec![1.0, 0.0, 0.0, 0.0, 2.0, 0.0, 7.0, 0.0, 0.0]));
+    }
+    if n == 4 {
+        v.push(("banded_matrix!(-1 and 2 only)".into(), guarded(|| banded_matrix!(-1 => [5.0, 6.0, 7.0], 2 => [8.0])), vec![0.0, 5.0, 0.0, 0.0, 0.0, 0.0, 6.0, 0.0, 8.0, 0.0, 0.0, 7.0, 0.0, 0.0, 0.0, 0.0]));
+    }
     if n == 4 {
         v.push((
             "banded_matrix!(4x4)".into(),
